@@ -64,6 +64,9 @@ fn registry(prop: &str) -> Option<CaseFn> {
     })
 }
 
+/// Index of the case being run (u64::MAX: none), for the case-deadline watcher.
+static CASE_NOW: std::sync::atomic::AtomicU64 = std::sync::atomic::AtomicU64::new(u64::MAX);
+
 fn main() {
     let args: Vec<String> = std::env::args().collect();
     if args.len() < 2 {
@@ -113,6 +116,27 @@ fn main() {
     if params.flag("noalloc") {
         alloc::set_counting(false);
     }
+    // A case that does not come back (a loop that never ends in the code under
+    // test) must not cost the whole job timeout: outside Miri a watcher ends the
+    // process once ONE case has been running for `case_deadline_s` seconds
+    // (cases take milliseconds to a few seconds). The driver reads the marker,
+    // files the case as "no verdict" and goes on with the next case.
+    let deadline_s = params.u64("case_deadline_s", 240);
+    if !cfg!(miri) && markers && deadline_s > 0 {
+        let _ = std::thread::Builder::new().name("case-deadline".into()).spawn(move || {
+            let mut seen = (u64::MAX, std::time::Instant::now());
+            loop {
+                std::thread::sleep(std::time::Duration::from_millis(500));
+                let cur = CASE_NOW.load(std::sync::atomic::Ordering::Relaxed);
+                if cur != seen.0 {
+                    seen = (cur, std::time::Instant::now());
+                } else if cur != u64::MAX && seen.1.elapsed().as_secs() >= deadline_s {
+                    eprintln!("\nCASE-DEADLINE-EXCEEDED idx={cur} seconds={deadline_s}");
+                    std::process::exit(97);
+                }
+            }
+        });
+    }
     let stdout = std::io::stdout();
     let mut out = std::io::BufWriter::new(stdout.lock());
     let mut shard = Shard::default();
@@ -126,6 +150,7 @@ fn main() {
             let _ = writeln!(out, "{{\"t\":\"begin\",\"i\":{idx}}}");
             let _ = out.flush();
         }
+        CASE_NOW.store(idx, std::sync::atomic::Ordering::Relaxed);
         let mut o = CaseOut {
             want_desc: one.is_some(),
             ..Default::default()
@@ -211,6 +236,7 @@ fn main() {
             break;
         }
     }
+    CASE_NOW.store(u64::MAX, std::sync::atomic::Ordering::Relaxed);
     let mut distinct = shard.fps.clone();
     distinct.sort_unstable();
     distinct.dedup();
